@@ -119,7 +119,7 @@ def generate(tier, seed, ctx):
             sh[r][c] = (a + rng.choice([-1, 1]), b) if rng.random() < 0.5 else (a, b + rng.choice([-1, 1]))
             sh[r][c] = (max(sh[r][c][0], 0), max(sh[r][c][1], 0))
         add("c10.mat.block %d %d %s" % (Rb, Cb, " ".join("%d %d" % p for row in sh for p in row)))
-    sum_shapes = [(2, 3), (3, 3), (1, 1), (0, 0), (2, 2), (1, 3)] + [(rng.randint(1, 5), rng.randint(1, 5)) for _ in range(6 if thorough else 1)]
+    sum_shapes = [(2, 3), (3, 3), (1, 1), (0, 0)] + ([(2, 2), (1, 3)] if thorough else []) + [(rng.randint(1, 5), rng.randint(1, 5)) for _ in range(6 if thorough else 1)]
     for r1, c1 in sum_shapes:
         for r2, c2 in shapes_near(r1, c1):
             for o in ("plus", "minus", "addeq", "subeq", "opplus", "opminus"):
@@ -188,7 +188,7 @@ def generate(tier, seed, ctx):
                 rows[k] = []
                 add("c10.interp.table %d %s" % (n, " ".join(lst(r) for r in rows)))
     grids = [[0.0, 100.0, 200.0], [-100.0, 0.0, 200.0, 300.0], [0.0, 1.0, 2.0], [1.0, 1.5, 3.5, 4.0, 8.0], inc(8)]
-    grids += [inc(rng.randint(3, 20)) for _ in range(10 if thorough else 2)]
+    grids += [inc(rng.randint(3, 20)) for _ in range(10 if thorough else 1)]
     ctx["grids"] = len(grids)
     for xs in grids:
         pr = ends_probe(xs)
@@ -198,9 +198,9 @@ def generate(tier, seed, ctx):
             add("c10.interp.deriv %s %s %d" % (lst(xs), hx(x), rng.randint(0, 4)))
         for k in range(5):
             add("c10.interp.deriv %s %s %d" % (lst(xs), hx(pr[4]), k))
-        sel = pr if thorough else rng.sample(pr, 10) + pr[:2]
+        sel = pr if thorough else rng.sample(pr, 6) + pr[:2]
         for x1 in sel:
-            for x2 in (rng.sample(pr, 6) if not thorough else pr[::2]):
+            for x2 in (rng.sample(pr, 4) if not thorough else pr[::2]):
                 add("c10.interp.integ %s %s %s" % (lst(xs), hx(x1), hx(x2)))
                 add("c10.interp.lmin %s %s %s" % (lst(xs), hx(x1), hx(x2)))
                 add("c10.interp.lmax %s %s %s" % (lst(xs), hx(x1), hx(x2)))
@@ -317,7 +317,7 @@ def generate(tier, seed, ctx):
     for l in srt:
         for t in (l[0] - 1, l[0], (l[0] + l[-1]) / 2, l[-1] + 1):
             add("c10.closest %s %s" % (lst(l), hx(t)))
-    for n in range(0, 5):
+    for n in range(0, 5 if thorough else 4):
         for i1 in sorted(set(range(-2, n + 3)) | {-IMAX - 1, IMAX}):
             for i2 in sorted(set(range(0, n + 3)) | {UMAX, IMAX}):
                 add("c10.sublist %d %d %d" % (n, i1, i2))
@@ -344,6 +344,16 @@ FINDING_PROBES = [
     "c10.mat.block 0 0",              # empty block list: block_matrices[0] read out of bounds
     "c10.importtable 1 0 2 0",        # existing empty file: data_aux.size() / rows with rows == 0
 ]
+
+
+def pre_build(env):
+    """[T2] translator tie (informational): guard texts of /repo's current sources vs the table the model was written from"""
+    import importlib.util
+    spec = importlib.util.spec_from_file_location("c10_guards", os.path.join(env["verif"], "translators", "guards.py"))
+    g = importlib.util.module_from_spec(spec)
+    spec.loader.exec_module(g)
+    r = g.extract(env["repo"])
+    return dict(guard_texts_same=len(r["same"]), guard_texts_changed=r["changed"], guard_anchors_missing=r["missing"])
 
 
 def compare(rq, impl, model, ctx):
